@@ -42,6 +42,32 @@ def shape(obj):
     return n, any(k >= 2 for k in incoming.values())
 
 
+def _edit_in_place(obj, gen):
+    """A few edits an application would make on a loaded / built collection; returns their names."""
+    done = []
+    for _, inst in walk(obj):
+        n = type(inst).__name__
+        if n in ("SoundEventAnnotation", "ClipAnnotation", "SequenceAnnotation") and "tag" not in done:
+            inst.tags.append(gen.tag(fresh=True))            # a tag nobody has seen before
+            inst.notes.append(gen.note())
+            done.append("tag")
+        elif n == "Recording" and "recording" not in done:
+            inst.rights = "edited rights"
+            inst.owners.append(gen.user(fresh=True))
+            done.append("recording")
+        elif n == "SoundEventPrediction" and "prediction" not in done:
+            inst.score = 0.0625
+            inst.tags = list(inst.tags)[::-1]
+            done.append("prediction")
+        elif n == "Sequence" and "sequence" not in done and inst.sound_events:
+            inst.sound_events = list(inst.sound_events)[::-1]
+            done.append("sequence")
+        elif n == "Clip" and "clip" not in done:
+            inst.features = list(inst.features) + [gen.data.Feature(term=gen.term("edited_feature"), value=0.0)]
+            done.append("clip")
+    return done
+
+
 def judge(ctx, kind, graph_seed, knobs, audio_mode):
     global _spec
     import soundevent.io as IO
@@ -64,6 +90,14 @@ def judge(ctx, kind, graph_seed, knobs, audio_mode):
         if dd:
             ctx.violate("save_mutates_original", f"save_mutates_original:{kind}:{AC._field_key(before, dd[0])}", observed={"path": dd[0], "before": dd[1], "after": dd[2]},
                         expected="save leaves the saved object unchanged", spec=_spec)
+        if graph_seed % 4 == 0:
+            # the collection is edited in place (the way an annotation tool does) and saved again in the same
+            # process: the second document must describe the CURRENT object (the save hook re-runs the round trip)
+            edited = _edit_in_place(obj, gen)
+            if edited:
+                _spec = dict(_spec, edited_in_place=edited)
+                ctx.mon("save_after_in_place_edit")
+                IO.save(obj, path, audio_dir=audio_dir)
     except Exception as e:
         ctx.violate_exc("save_raises", f"save_raises:{kind}:{type(e).__name__}", e, spec=_spec)
     finally:
